@@ -544,6 +544,11 @@ type harness struct {
 	// may still have queued a task for them (keyEvicted) which nothing but serving it or a
 	// disconnect removes, whatever the peer asks later
 	stray []map[int]bool
+	// ackStale: MessageSent was called for an answer older than the peer's latest request for
+	// the CID in a state in which the engine drops the ledger entry of that latest request
+	// (keyStaleAck), so that a queued task for the CID can outlive cancels and full want-lists
+	// and merge with the tasks of later requests; until the CID is served or the peer disconnects
+	ackStale []map[int]bool
 
 	// envelopes taken and not yet acknowledged by MessageSent and Sent, oldest first
 	held     []*heldEnv
@@ -605,6 +610,12 @@ const (
 	// a newcomer that is first admitted and then evicted again while the same message's
 	// overflow is handled keeps its task; a later cancel cannot retract it
 	keyEvicted = "F14d-evicted-newcomer-keeps-task"
+	// MessageSent for an envelope that was built before the peer's latest request for the CID
+	// removes the ledger entry of that latest request (HAVE acknowledged while the entry is a
+	// want-have again after an upgrade to want-block, or any acknowledgement arriving after a
+	// disconnect and re-request) although a task for it is queued; a later cancel or full
+	// want-list then finds no entry and cannot retract the task
+	keyStaleAck = "F14e-stale-ack-drops-rerequested-want"
 )
 
 // ---------------------------------------------------------------------------
@@ -1060,14 +1071,18 @@ func (h *harness) onEnvelope(step int, env *vb.Envelope) *kit.Result {
 	// anomalies about a (peer, CID) pair that may have a stray task are that known defect
 	anom := func(ci int, format string, a ...any) *kit.Result {
 		k := ""
-		if h.stray[pi][ci] {
+		if h.ackStale[pi][ci] {
+			k = keyStaleAck
+		} else if h.stray[pi][ci] {
 			k = keyEvicted
 		}
 		return fail(k, format, a...)
 	}
 	unwanted := func(kind string, ci int) *kit.Result {
 		k := ""
-		if h.stray[pi][ci] {
+		if h.ackStale[pi][ci] {
+			k = keyStaleAck
+		} else if h.stray[pi][ci] {
 			k = keyEvicted
 		} else if h.dropped[pi][ci] {
 			k = keyFull
@@ -1166,12 +1181,14 @@ func (h *harness) onEnvelope(step int, env *vb.Envelope) *kit.Result {
 		}
 		delete(h.mayPend[pi], ci)
 		delete(h.stray[pi], ci)
+		delete(h.ackStale[pi], ci)
 	}
 	for _, bp := range pres {
 		ci := h.idx[bp.Cid]
 		he.active[ci] = true
 		delete(h.mayPend[pi], ci)
 		delete(h.stray[pi], ci)
+		delete(h.ackStale[pi], ci)
 		w := h.want[pi][ci]
 		if w == nil {
 			continue
@@ -1226,11 +1243,19 @@ func (h *harness) settle(he *heldEnv, both bool) {
 		for _, ci := range he.blks {
 			if cur(ci) != nil {
 				delete(h.want[he.pi], ci)
+			} else if h.want[he.pi][ci] != nil {
+				h.ackStale[he.pi][ci] = true // a sent block drops the entry whatever its type
+				h.classes["ack-older-than-latest-request"] = true
 			}
 		}
 		for _, ci := range he.haves {
-			if w := cur(ci); w != nil && w.have && !w.everBlock {
-				delete(h.want[he.pi], ci)
+			if w := cur(ci); w != nil {
+				if w.have && !w.everBlock {
+					delete(h.want[he.pi], ci)
+				}
+			} else if w := h.want[he.pi][ci]; w != nil && w.have {
+				h.ackStale[he.pi][ci] = true // a sent HAVE drops the entry if it is a want-have (now)
+				h.classes["ack-older-than-latest-request"] = true
 			}
 		}
 		h.e.MessageSent(he.env.Peer, he.env.Message)
@@ -1297,6 +1322,7 @@ func runBubble(c Case) kit.Result {
 		h.deniedDH = append(h.deniedDH, map[int]bool{})
 		h.mayPend = append(h.mayPend, map[int]bool{})
 		h.stray = append(h.stray, map[int]bool{})
+		h.ackStale = append(h.ackStale, map[int]bool{})
 	}
 	h.bs = blockstore.NewBlockstore(dssync.MutexWrap(ds.NewMapDatastore()))
 	for _, ci := range c.Init {
@@ -1393,6 +1419,7 @@ func runBubble(c Case) kit.Result {
 			h.deniedDH[op.Peer] = map[int]bool{}
 			h.mayPend[op.Peer] = map[int]bool{}
 			h.stray[op.Peer] = map[int]bool{}
+			h.ackStale[op.Peer] = map[int]bool{}
 		case "tick":
 			time.Sleep(150 * time.Millisecond)
 		}
